@@ -126,6 +126,7 @@ class BufEngine:
         self.depth = depth
         self.objparam = objparam        # free function working on a reader / writer passed by reference
         self.objrec = objrec
+        self.buf_mode = False           # analysing a member of the buffer's own array class: `this` is the buffer
         self.params = {p['id']: p for p in f.get('params', [])}
         self.signed = {p['name'] for p in f.get('params', []) if p['ct'].replace('const ', '') not in UNSIGNED
                        and not p['ct'].rstrip().endswith('*') and not p['ct'].rstrip().endswith('&')}
@@ -197,6 +198,13 @@ class BufEngine:
         if e is None or d > 6:
             return False
         k = e.get('kind')
+        if self.buf_mode:
+            if tu.is_this(e) or (k == 'UnaryOperator' and e.get('opcode') == '*' and tu.is_this(tu.kids(e)[0])):
+                return True
+            # the storage vector of the array (mirrored by the AbstractArray base: same size, same data)
+            if k == 'MemberExpr' and tu.kids(e) and tu.is_this(tu.kids(e)[0]) and \
+                    re.match(r'^std::vector<', tu.sd(e).get('ct', '').replace('const ', '')):
+                return True
         if k == 'DeclRefExpr' and e.get('referencedDecl', {}).get('id') in self.buf_obj_alias:
             return True
         if k == 'UnaryOperator' and e.get('opcode') == '*':
@@ -398,7 +406,7 @@ class BufEngine:
             return None
         sd, obj, args = tu.call_parts(n)
         name = sd.get('q', '').split('::')[-1]
-        if obj is not None and self.is_buf_obj(obj) and sd.get('rec') in ARRAY_RECS:
+        if obj is not None and self.is_buf_obj(obj) and (sd.get('rec') in ARRAY_RECS or (self.buf_mode and sd.get('rec') == 'std::vector')):
             if name == 'size' and not args:
                 return st.bufsize
             if name in ('begin', 'data', 'cbegin') and not args:
@@ -432,6 +440,8 @@ class BufEngine:
         ct = tu.sd(e).get('ct', '')
         if e.get('id') in st.callvals:
             return st.callvals[e['id']]
+        if k == 'ConditionalOperator' and ('cond', e.get('id')) in st.callvals:
+            return self.val(tu.kids(e)[1 + st.callvals[('cond', e['id'])]], st, d + 1)
         if k == 'DeclRefExpr':
             did = e.get('referencedDecl', {}).get('id')
             if did in st.vars:
@@ -456,6 +466,14 @@ class BufEngine:
                 return ('ptr', b[1], b[2], b[3] + a)
             if isinstance(a, Poly) and isinstance(b, Poly):
                 return a + b if e['opcode'] == '+' else a - b
+            return None
+        if k == 'CXXOperatorCallExpr' and tu.sd(e).get('q', '').split('::')[-1] in ('operator+', 'operator-') and \
+                '__normal_iterator' in tu.sd(e).get('q', ''):
+            sd_, obj_, args_ = tu.call_parts(e)
+            a = self.val(obj_, st, d + 1) if obj_ is not None else None
+            b = self.val(args_[0], st, d + 1) if len(args_) == 1 else None
+            if is_ptr(a) and isinstance(b, Poly):
+                return ('ptr', a[1], a[2], a[3] + b if sd_['q'].endswith('+') else a[3] - b)
             return None
         if k == 'BinaryOperator' and e.get('opcode') == '&':
             # (x + a - 1) & ~(a - 1) with a power of two a: x rounded up to a multiple of a
@@ -611,8 +629,8 @@ class BufEngine:
                     st.bufsize = nv
                     st.bufgen += 1
                     return None
-                if sd.get('rec') in ARRAY_RECS and name in ('size', 'begin', 'data', 'cbegin', 'end', 'cend', 'at',
-                                                            'operator[]'):
+                if (sd.get('rec') in ARRAY_RECS or (self.buf_mode and sd.get('rec') == 'std::vector')) and \
+                        name in ('size', 'begin', 'data', 'cbegin', 'end', 'cend', 'at', 'operator[]', 'setPtr'):
                     return None
                 raise Undecided('call `%s` on the buffer is not modelled' % tu.show(n))
             if obj is not None and self.is_self(obj) and sd.get('rec') == self.recq:
@@ -630,7 +648,9 @@ class BufEngine:
             if q in ('std::copy_n', 'std::copy') and len(args) == 3:
                 # element-wise copies of byte ranges are bounded block transfers like memcpy
                 def esize(a):
-                    pt = re.sub(r'\bconst\s+|\s*\*\s*(const)?$', '', tu.sd(tu.strip(a)).get('ct', '')).strip()
+                    ct_ = tu.sd(tu.strip(a)).get('ct', '')
+                    mi = re.search(r'__normal_iterator<(?:const )?([\w ]+?) ?\*', ct_)
+                    pt = mi.group(1).strip() if mi else re.sub(r'\bconst\s+|\s*\*\s*(const)?$', '', ct_).strip()
                     return {'unsigned char': 1, 'char': 1, 'signed char': 1}.get(pt)
                 if q == 'std::copy_n':
                     src, cnt, dst = self.val(args[0], st), self.val(args[1], st), self.val(args[2], st)
@@ -713,9 +733,18 @@ class BufEngine:
             return None
         sd, obj, args = tu.call_parts(n)
         if n['kind'] == 'CXXMemberCallExpr':
+            if self.buf_mode and obj is not None and self.is_buf_obj(obj) and \
+                    callee['q'].split('::')[-1] in ('size', 'begin', 'data', 'cbegin', 'end', 'cend', 'at', 'operator[]', 'resize', 'setPtr'):
+                return None            # primitive operations of the buffer, modelled directly
             if obj is not None and self.is_self(obj) and callee.get('rec') == self.recq and self.recq:
                 return callee
+            if obj is not None and self.is_buf_obj(obj) and callee.get('rec') in ARRAY_RECS and \
+                    callee['q'].split('::')[-1] not in ('size', 'begin', 'data', 'cbegin', 'end', 'cend', 'at', 'operator[]', 'resize',
+                                                        'setPtr'):
+                return callee          # a member of the buffer's own array class (e.g. OwnedArray::append)
             return None
+        if callee.get('rec') == self.recq and self.recq and callee.get('static'):
+            return callee              # static member of the analysed class
         if callee['q'].startswith(NET) and not callee.get('rec') and 'operator' not in callee['q'].split('::')[-1]:
             return callee
         return None
@@ -726,6 +755,8 @@ class BufEngine:
         sd, obj, args = tu.call_parts(n)
         sub = BufEngine(tu, callee, self.depth + 1)
         sub.buf_field = self.buf_field if callee.get('rec') == self.recq else None
+        if self.buf_mode or (callee.get('rec') in ARRAY_RECS and callee.get('rec') != self.recq):
+            sub.buf_mode = True
         sub.signed = self.signed
         s0 = st.copy()
         s0.vars = {}
@@ -848,6 +879,9 @@ class BufEngine:
                     break
             if forked:
                 continue
+            if res is None and blk.noret:
+                st.events.append(('throw', 'noreturn call', blk.el[-1][1] if blk.el and blk.el[-1][0] == 'S' else None))
+                res = 'throw'
             if res == 'throw':
                 outs.append(('throw', st, None))
                 continue
@@ -863,10 +897,13 @@ class BufEngine:
                 c = tu.strip(tu.node(blk.cond))
                 while c is not None and c.get('kind') == 'BinaryOperator' and c.get('opcode') in ('&&', '||'):
                     c = tu.strip(tu.kids(c)[1])
+                tnode = tu.node(blk.term) if blk.term else None
                 for idx, s2 in self.branch_states(c, st):
                     s = succ[idx]
                     if s is None:
                         continue
+                    if tnode is not None and tnode.get('kind') == 'ConditionalOperator':
+                        s2.callvals[('cond', tnode['id'])] = idx
                     if s == g.exit:
                         outs.append(('end', s2, None))
                     else:
@@ -1219,7 +1256,42 @@ def check_accessors(ctx, tu):
         n += 1
         inst = 'BufferReader::end'
         key = '%s|%s|%s|' % (R, tu.fn_file(f), inst)
-        if len(outs) != 1 or outs[0][0] != 'return' or not (isinstance(outs[0][2], tuple) and outs[0][2][0] == 'rel'):
+        def truth_under(rel_, cons_):
+            """True / False if the relation is decided by the path condition (interval reasoning), else None"""
+            facts_ = [c0 - cap] + [p_ for p_, op_ in cons_ if op_ == '<='] + [q_ for p_, op_ in cons_ if op_ == '==' for q_ in (p_, -p_)]
+            vals = []
+            for p_, op_ in rel_:
+                ub_, lb_ = upper_bound(p_, facts_, 2 ** 64 - 1), lower_bound(p_, facts_, 2 ** 64 - 1)
+                if op_ == '<=':
+                    v_ = True if ub_ is not None and ub_ <= 0 else False if lb_ is not None and lb_ >= 1 else None
+                elif op_ == '==':
+                    v_ = True if (ub_ is not None and ub_ <= 0 and lb_ is not None and lb_ >= 0) else \
+                        False if (lb_ is not None and lb_ >= 1) or (ub_ is not None and ub_ <= -1) else None
+                else:
+                    v_ = True if (lb_ is not None and lb_ >= 1) or (ub_ is not None and ub_ <= -1) else \
+                        False if (ub_ is not None and ub_ <= 0 and lb_ is not None and lb_ >= 0) else None
+                vals.append(v_)
+            if any(v_ is False for v_ in vals):
+                return False
+            return True if all(v_ is True for v_ in vals) else None
+
+        multi = len(outs) > 1 and all(o[0] == 'return' and isinstance(o[2], tuple) and o[2][0] == 'rel' and not o[1].opaque for o in outs)
+        if multi:
+            # several paths (e.g. through a remaining() helper with a ?:): on each, the returned relation must have the
+            # truth value of `cursor >= size` under that path's condition
+            verdicts = []
+            for kind_, st_, rv_ in outs:
+                got, wantv = truth_under(rv_[1], st_.cons), truth_under([(cap - c0, '<=')], st_.cons)
+                verdicts.append((got, wantv, st_, rv_))
+            if all(g_ is not None and g_ == w_ for g_, w_, _, _ in verdicts):
+                ctx.ok(R, inst, 'returns cursor >= size on each of its %d paths' % len(outs), tu.fn_loc(f))
+            elif any(g_ is not None and w_ is not None and g_ != w_ for g_, w_, _, _ in verdicts):
+                g_, w_, st_, rv_ = [v_ for v_ in verdicts if v_[0] is not None and v_[1] is not None and v_[0] != v_[1]][0]
+                ctx.violation(R, inst, 'end() returns %s on the path where %s, but cursor >= size is %s there'
+                              % (g_, ' && '.join(show_rel(c_) for c_ in st_.cons) or 'true', w_), tu.fn_loc(f), key=key + 'relation')
+            else:
+                ctx.undecided(R, inst, 'end() has %d paths whose results are not all decided' % len(outs), tu.fn_loc(f))
+        elif len(outs) != 1 or outs[0][0] != 'return' or not (isinstance(outs[0][2], tuple) and outs[0][2][0] == 'rel'):
             ctx.undecided(R, inst, 'end() is not a single returned relation', tu.fn_loc(f))
         else:
             rel = outs[0][2][1]
